@@ -57,7 +57,7 @@ MANIFEST = dict(
          'AtomicWriter for several with-blocks is not covered.',
 )
 
-IMPORTS = ['SV.SM.AtomicWriter', 'SV.SM.AtomicExit', 'SV.Gen.AtomicWriter_gen', 'Coq.Lists.List', 'Coq.Bool.Bool',
+IMPORTS = ['SV.SM.AtomicWriter', 'SV.SM.AtomicExit', 'SV.SM.AtomicReuse', 'SV.Gen.AtomicWriter_gen', 'Coq.Lists.List', 'Coq.Bool.Bool',
            'Coq.Arith.PeanoNat']
 PRE = 'Import ListNotations.\n'
 
@@ -103,6 +103,7 @@ class FsSim:
         self.wids: dict[int, int] = {}
         self.phase: dict[int, tuple[str, bool]] = {}
         self.lock = threading.Lock()
+        self.use_idx = 0          # which `with` block of a reuse history is running
 
     # -- helpers
     def wid(self) -> int:
@@ -136,7 +137,7 @@ class FsSim:
             self.n += 1
             k = self.n
             ph, exc = self.phase.get(w, ('pre', False))
-            rec = dict(k=k, w=w, op=op, name=name, res='ok', phase=ph, exc=exc, inj=inj, **kw)
+            rec = dict(k=k, w=w, op=op, name=name, res='ok', phase=ph, exc=exc, inj=inj, u=self.use_idx, **kw)
             self.ops.append(rec)
         if self.crash_at is not None and k == self.crash_at + 1:
             os._exit(77)
@@ -721,10 +722,12 @@ def _single_scenario(ck0: Ck, work: Path, si: int, sc: dict, do_model: bool, cas
         # ---- a kill before every operation (k operations completed), executed in a forked child
         # long traces (BSP.save: one raw write per deferred header slot): the quick tier executes every kill/fault point
         # that is not a write plus a seeded sample of the writes; the thorough tier (and any broken tie) executes all
-        full = len(ops0) <= 24 or escalated(ck)
+        # (a source that merely differs from the known digests triples the sample; every point only in the thorough tier
+        # or when a tie is broken: an escalated BSP stage took 150-480 s for a behaviour-preserving refactoring)
+        full = len(ops0) <= 24 or is_big(ck) or (escalated(ck) and not sc.get('bsp'))
         keep = {o['k'] for o in ops0 if o['op'] != 'write'} | {len(ops0)} | {0}
         wks = [o['k'] for o in ops0 if o['op'] == 'write']
-        keep |= set(wks[:2] + wks[-2:] + ck.rng.sample(wks, min(len(wks), 10)))
+        keep |= set(wks[:2] + wks[-2:] + ck.rng.sample(wks, min(len(wks), 30 if escalated(ck) else 10)))
         for k in range(0, len(ops0) + 1):
             if not full and k not in keep and (k + 1) not in keep:
                 continue
@@ -799,7 +802,7 @@ def _single_scenario(ck0: Ck, work: Path, si: int, sc: dict, do_model: bool, cas
                      {'run': f'OSError at op {k} ({at})', 'scenario': sc_json(sc), 'why': whyf}, False)
             # ---- a second OSError at every operation that follows the first one (the cleanup of the cleanup):
             # exercises the second level of the decision trees (close fails AND unlink fails, rename fails AND ...)
-            if sc.get('bsp') and not escalated(ck):
+            if sc.get('bsp') and not is_big(ck):
                 continue
             for o2 in [x for x in r['ops'] if x['k'] > k and x['inj']]:
                 k2 = o2['k']
@@ -960,6 +963,302 @@ def bsp_scenarios(ck: Ck) -> list[dict]:
     return out
 
 
+# =============================================================================================== reuse histories
+# One AtomicWriter object, several `with` blocks ("not reentrant, but can be repeated").  A history is a word over
+# S (the body returns) / B (the body raises after some writes); OSErrors are injected on top.  What survives a use is
+# the object's instance attributes: every use must behave like the single use of a fresh object in the directory the
+# previous use left (c12_reuse_history), whatever came before it.
+def run_history(hs: dict, root: str, fault_at: Any = None, crash_at: int | None = None) -> dict:
+    populate(root, hs)
+    dest = os.path.join(root, hs['dest'])
+    sim = FsSim(root, hs.get('bufsize', 8192), fault_at, crash_at)
+    outcomes: list[str] = []
+    listings: list[dict[str, bytes]] = [listing(root)]
+    with sim:
+        AWSpy = make_spy_class(sim)
+        aw = AWSpy(dest, is_bytes=not hs.get('text'), **({'encoding': hs['encoding']} if hs.get('text') else {}))
+        for u, use in enumerate(hs['uses']):
+            sim.use_idx = u
+            sim.set_phase('pre')
+            outcome = 'ok'
+            try:
+                with aw as f:
+                    body_plain(use)(f)
+            except BodyError:
+                outcome = 'body'
+            except OSError as e:
+                outcome = 'oserror' if e.errno == errno.EIO else f'oserror:{type(e).__name__}'
+            except Exception as e:
+                outcome = f'other:{type(e).__name__}:{e}'
+            outcomes.append(outcome)
+            listings.append(listing(root))
+    return dict(ops=sim.ops, outcomes=outcomes, listings=listings)
+
+
+def run_history_crash(hs: dict, root: str, k: int) -> tuple[int, dict[str, bytes]]:
+    pid = os.fork()
+    if pid == 0:
+        try:
+            run_history(hs, root, crash_at=k)
+        except BaseException:
+            os._exit(3)
+        os._exit(0)
+    _, status = os.waitpid(pid, 0)
+    return os.waitstatus_to_exitcode(status), listing(root)
+
+
+def history_scenarios(ck: Ck) -> list[dict]:
+    OLD = b'OLD-CONTENT-0123456789'
+    out: list[dict] = []
+
+    def uses_of(word: str, text: bool) -> list[dict]:
+        us = []
+        for u, ch in enumerate(word):
+            chunks: list[Any] = [b'U%d-AAAA' % u, b'U%d-BBBBBB' % u, b'U%d-CC' % u]
+            if text:
+                chunks = [c.decode() + '\n' for c in chunks]
+            us.append(dict(chunks=chunks, **({'raise_after': 1 + u % 2} if ch == 'B' else {})))
+        return us
+
+    def add(word: str, **kw: Any) -> None:
+        hs = dict(kind=f'history-{word}' + ('-text' if kw.get('text') else '') + ('-stale' if 'init' in kw else ''),
+                  word=word, dest='out.bin', init={'out.bin': OLD, 'keep.txt': b'keep'}, bufsize=1)
+        hs.update(kw)
+        hs['uses'] = uses_of(word, bool(hs.get('text')))
+        out.append(hs)
+    words = ['S', 'B', 'SS', 'SB', 'BS', 'BB', 'SSB', 'BSB', 'SBS', 'SBB']
+    if escalated(ck):
+        words += ['SSS', 'BBS', 'BSS', 'BBB', 'SSSB', 'SBSB', 'BSBS', 'SSBB', 'SBBS']
+    for w in words:
+        add(w)
+    add('SB', bufsize=8192)
+    add('SBS', init={'out.bin': OLD, 'tmp_1': b'STALE1', 'keep.txt': b'k'}, bufsize=6)
+    add('SB', text=True, encoding='utf8', bufsize=8192)
+    add('BS', text=True, encoding='utf8', bufsize=4)
+    add('SSB', init={'keep.txt': b'k'}, bufsize=8192)          # the destination does not exist before the first use
+    for _ in range(budget(ck, 2, 12)):
+        w = ''.join(ck.rng.choice('SB') for _ in range(ck.rng.choice([2, 3, 3, 4])))
+        init = {'keep.txt': b'keep'}
+        if ck.rng.random() < 0.8:
+            init['out.bin'] = OLD
+        for i in ck.rng.sample([1, 2, 3], ck.rng.choice([0, 0, 1, 2])):
+            init[f'tmp_{i}'] = b'STALE%d' % i
+        add(w, init=init, bufsize=ck.rng.choice([1, 5, 16, 8192]))
+    return out
+
+
+def hist_replay_obj(mode: str, hs: dict, k: Any) -> dict:
+    d = {x: v for x, v in hs.items() if x not in ('uses', 'init')}
+    d['init'] = {n: v.hex() for n, v in hs['init'].items()}
+    d['uses'] = [{**u, 'chunks': [c.hex() if isinstance(c, bytes) else c for c in u['chunks']]} for u in hs['uses']]
+    return {'mode': mode, 'history': d, 'k': k,
+            'how': './check C12 --replay <this file> re-runs the history (one AtomicWriter object, one `with` block per '
+                   'letter of `word`: S = body returns, B = body raises) with the same OSError / kill point k'}
+
+
+def _prev_class(word: str, outcomes: list[str], u: int) -> str:
+    if u == 0:
+        return 'first-use'
+    if outcomes[u - 1] == 'ok':
+        return 'after-a-successful-use'
+    if outcomes[u - 1] == 'body':
+        return 'after-an-abandoned-use'
+    return 'after-a-failed-use'
+
+
+def history_campaign(ck: Ck, do_model: bool) -> None:
+    work = ck.scratch / 'c12_hist'
+    cases: list[dict] = []
+    hss = history_scenarios(ck)
+    for hi, hs in enumerate(hss):
+        def fresh(tag: str, hi: int = hi) -> str:
+            d = str(work / f'h{hi}_{tag}')
+            shutil.rmtree(d, ignore_errors=True)
+            return d
+        base = run_history(hs, fresh('base'))
+        ck.count('history_fault_free_runs')
+        ck.hist('history_word', hs['word'])
+        ops0 = base['ops']
+        nuse = len(hs['uses'])
+        enc = hs.get('encoding', 'utf8')
+        news = [(''.join(u['chunks']).encode(enc) if hs.get('text') else b''.join(u['chunks'])) for u in hs['uses']]
+        # token numbering of every use, from the fault-free run
+        # (use u, j-th raw write) = token 16*u + j: distinct over the whole history, below the tokens of old contents
+        wmaps, scens = [], []
+        wall: dict[int, tuple[int, bytes]] = {}
+        modelled = do_model and nuse <= 5
+        for u, use in enumerate(hs['uses']):
+            wr = [o for o in ops0 if o['u'] == u and o['op'] == 'write']
+            modelled = modelled and len(wr) <= 15
+            wmaps.append({16 * u + j + 1: (o['off'], o['data']) for j, o in enumerate(wr)})
+            wall.update(wmaps[-1])
+            bodyt = [16 * u + j + 1 for j, o in enumerate(wr) if o['phase'] == 'body']
+            if use.get('raise_after') is not None:
+                scens.append(coq_scen(0, bodyt, [], len(bodyt)))
+            else:
+                scens.append(coq_scen(0, bodyt, [16 * u + j + 1 for j, o in enumerate(wr) if o['phase'] == 'exit'], None))
+        nm = NameMap(hs)
+
+        def judge(r: dict, fault: Any, how: str) -> None:
+            """Oracle on every use of one executed history + one model case for the whole history."""
+            rp = hist_replay_obj('history', hs, fault)
+            per_use: list[dict] | None = []
+            for u, use in enumerate(hs['uses']):
+                before, after, outc = r['listings'][u], r['listings'][u + 1], r['outcomes'][u]
+                uops = [o for o in r['ops'] if o['u'] == u]
+                hit = [o for o in uops if o['res'] == 'fault']
+                raising = use.get('raise_after') is not None
+                pos = _prev_class(hs['word'], r['outcomes'], u)
+                what = (f'history {hs["word"]}, use {u + 1} ({"body raises" if raising else "body returns"}'
+                        f'{", OSError in " + op_label(hit[0]) if hit else ""}; {pos.replace("-", " ")}): ')
+                cause = f'{op_label(hit[0])}-fault' if hit else ('body-exception' if raising else 'success')
+                exp_out = 'body' if raising else 'ok'
+                if (not hit and outc != exp_out) or (hit and (outc == 'ok' or outc.startswith('other'))):
+                    ck.violation(f'reuse:unexpected-outcome-after-{cause}:{pos}', what + f'the with statement ended with {outc}', rp)
+                d = after.get(hs['dest'])
+                if outc == 'ok' and d != news[u]:
+                    ck.violation(f'reuse:wrong-content-after-{cause}:{pos}', what + f'destination holds {d!r:.60}', rp)
+                if outc != 'ok' and d != before.get(hs['dest']):
+                    ck.violation(f'reuse:dest-changed-after-{cause}:{pos}',
+                                 what + f'the use failed ({outc}) but the destination holds {d!r:.60} instead of '
+                                        f'{before.get(hs["dest"])!r:.40}', rp)
+                extra = set(after) - set(before) - {hs['dest']}
+                if extra and not any(o['op'] == 'unlink' for o in hit):
+                    ck.violation(f'reuse:temp-left-after-{cause}:{pos}', what + f'{sorted(extra)} stayed in the directory', rp)
+                for n0, v0 in before.items():
+                    if n0 != hs['dest'] and after.get(n0) != v0:
+                        ck.violation(f'reuse:foreign-file-touched-after-{cause}:{pos}', what + f'{n0} changed or vanished', rp)
+                opens = [(o['name'], o['res']) for o in uops if o['op'] == 'open']
+                if opens and not any(o['op'] in ('mkdir', 'open') for o in hit):
+                    j = 1
+                    while f'tmp_{j}' in before:
+                        j += 1
+                    if opens != [(f'tmp_{i}', 'exist') for i in range(1, j)] + [(f'tmp_{j}', 'ok')]:
+                        ck.violation(f'reuse:temp-name-loop:{pos}', what + f'open attempts {opens[:6]}, expected tmp_1..tmp_{j}', rp)
+                first = uops[0]['op'] if uops else None
+                if first is not None and first != 'mkdir':
+                    ck.violation(f'reuse:entry-does-not-start-afresh:{pos}',
+                                 what + f'the use starts with {first} {uops[0]["name"]} (left over from the previous use)', rp)
+                ck.seen(('history', hs['kind'], repr(fault), u))
+                if not modelled or per_use is None:
+                    continue
+
+                def wtok(n: int, o: dict, u: int = u) -> int:
+                    return 16 * u + n if wmaps[u].get(16 * u + n) == (o['off'], o['data']) else 0
+                evs, why = canon_events(uops, nm, wtok)
+                if evs is None:
+                    if not any(o['name'] == 'correspondence:trace:history' for o in ck.obligations):
+                        ck.obligation('correspondence:trace:history', False, why)
+                        ck.tie_broken.append('correspondence AtomicWriter history trace: ' + why)
+                    per_use = None
+                    continue
+                per_use.append(dict(events=evs, listing=after, returned=outc == 'ok', cut=len(uops) + 5,
+                                    replaced=any(e[0] == 4 and e[3] == 0 for e in evs),
+                                    faults=[i for i, e in enumerate(evs) if e[3] == 3]))
+            if modelled and per_use:
+                # the whole history in the model: every use starts in the directory the model's previous use left
+                max_tmp = max([e[1] for pu in per_use for e in pu['events'] if e[0] != 0]
+                              + [NameMap.tmp_index(b) or 0 for b in nm.init] + [1]) + 1
+                uses = coq_list(f'({scens[u]}, {pu["cut"]}, {coq_list(map(str, pu["faults"]))})' for u, pu in enumerate(per_use))
+                cases.append(dict(coq=f'corr_hist aw_obj {uses} (dir_of {nm.coq_init()}) {coq_list(nm.probe_names(max_tmp))}',
+                                  uses=per_use, nm=nm, wmap=wall, max_tmp=max_tmp,
+                                  what={'run': how, 'history': hs['kind'], 'fault': repr(fault)}))
+
+        judge(base, None, 'fault-free history')
+        # ---- one OSError at every injectable operation of the whole history
+        for o in ops0:
+            if not o['inj']:
+                continue
+            r = run_history(hs, fresh('fault'), fault_at=o['k'])
+            if not any(x['res'] == 'fault' for x in r['ops']):
+                continue
+            ck.count('history_fault_runs')
+            ck.hist('history_fault_op', op_label(o))
+            judge(r, o['k'], f'OSError at operation {o["k"]} ({op_label(o)}) of the history')
+        # ---- a kill before every operation of the later uses (the first use is the single-writer campaign)
+        if nuse < 2 or (hi % 3 and not escalated(ck)):
+            continue
+        for k in range(0, len(ops0) + 1):
+            u = ops0[k]['u'] if k < len(ops0) else nuse - 1
+            if u == 0 or (k < len(ops0) and ops0[k]['op'] == 'write' and not escalated(ck) and k % 2):
+                continue
+            rc, lst = run_history_crash(hs, fresh('crash'), k)
+            ck.count('history_crash_points')
+            if rc not in (77, 0):
+                ck.violation(f'crash-child-error:{hs["kind"]}', f'forked child exited with {rc}', {'history': hs['kind'], 'k': k})
+                continue
+            at = op_label(ops0[k]) if k < len(ops0) else 'end'
+            before, new = base['listings'][u], news[u]
+            d = lst.get(hs['dest'])
+            rk = next((o['k'] for o in ops0 if o['u'] == u and o['op'] == 'replace'), None)
+            pos = _prev_class(hs['word'], base['outcomes'], u)
+            rp = hist_replay_obj('history-crash', hs, k)
+            ck.seen(('history-crash', hs['kind'], k))
+            if d != before.get(hs['dest']) and d != new:
+                ck.violation(f'reuse:dest-mixture-at-crash-before-{at}:{pos}',
+                             f'history {hs["word"]} killed after {k} operations (use {u + 1}, before {at}): destination holds '
+                             f'{d!r:.60}', rp)
+            elif d == new and d != before.get(hs['dest']) and (rk is None or k < rk):
+                ck.violation(f'reuse:new-content-before-replace:{at}:{pos}', f'history {hs["word"]} killed after {k} operations', rp)
+            elif rk is not None and k >= rk and d != new:
+                ck.violation(f'reuse:old-content-after-replace:{at}:{pos}', f'history {hs["word"]} killed after {k} operations', rp)
+            extra = set(lst) - set(before) - {hs['dest']}
+            if len(extra) > 1 or any(NameMap.tmp_index(x) is None for x in extra):
+                ck.violation(f'reuse:unexpected-files-at-crash:{at}:{pos}', f'files {sorted(extra)} present after the kill', rp)
+            for n0, v0 in before.items():
+                if n0 != hs['dest'] and lst.get(n0) != v0:
+                    ck.violation(f'reuse:foreign-file-touched-at-crash:{at}:{pos}', f'{n0} changed', rp)
+    ck.extra['histories'] = {'scenarios': len(hss), 'words': sorted({h['word'] for h in hss})}
+    if do_model and cases:
+        eval_hist_cases(ck, cases)
+
+
+def eval_hist_cases(ck: Ck, cases: list[dict]) -> None:
+    bad: list[dict] = []
+    n = 0
+    for lo in range(0, len(cases), 150):
+        part = cases[lo:lo + 150]
+        vals = ck.coq_eval(IMPORTS, [coq_list(c['coq'] for c in part)], name='aw_history', preamble=PRE)
+        if vals is None:
+            ck.obligation('correspondence:history', False, 'model could not be evaluated')
+            ck.tie_broken.append('correspondence AtomicWriter (history): model evaluation failed')
+            return
+        res = parse_coq_nested(vals[0])
+        assert len(res) == len(part), (len(res), len(part))
+        for c, rows in zip(part, res):
+            nm: NameMap = c['nm']
+            diffs: list[dict] = []
+            if len(rows) != len(c['uses']):
+                diffs.append({'model_uses': len(rows), 'real_uses': len(c['uses'])})
+            for u, (row, pu) in enumerate(zip(rows, c['uses'])):
+                n += 1
+                ck.count('model_cases_history')
+                pc, events, probes = row
+                if events != pu['events']:
+                    diffs.append({'use': u + 1, 'events_model': events, 'events_real': pu['events']})
+                if (pc[0] == 1) != pu['replaced'] or (pc[2] == 1) != (not pu['returned']):
+                    diffs.append({'use': u + 1, 'model_pc': pc, 'real_rename_succeeded': pu['replaced'],
+                                  'real_returned_normally': pu['returned']})
+                for b, enc in zip(nm.probe_bases(c['max_tmp']), probes):
+                    toks = opt_content(enc)
+                    real = pu['listing'].get(b)
+                    if NameMap.tmp_index(b) is not None and b not in nm.init:
+                        if (toks is None) != (real is None):       # a temp file of the writer: presence only
+                            diffs.append({'use': u + 1, 'name': b, 'model_present': toks is not None, 'real_present': real is not None})
+                        continue
+                    exp = nm.expect_bytes(toks, c['wmap'])
+                    if exp != real:
+                        diffs.append({'use': u + 1, 'name': b, 'model_tokens': toks, 'model_bytes': repr(exp)[:80], 'real': repr(real)[:80]})
+            if diffs:
+                bad.append({'what': c['what'], 'diffs': diffs[:6]})
+    ck.obligation('correspondence:history', not bad,
+                  f'{n} uses in {len(cases)} executed reuse histories of one real AtomicWriter (fault-free / one OSError at every '
+                  f'operation) vs corr_hist aw_obj (the model threads the directory from use to use): {len(bad)} disagreements')
+    if bad:
+        ck.tie_broken.append('correspondence AtomicWriter (history): real trace/directory differs from the model')
+        ck.extra['history_disagreements'] = bad[:5]
+
+
 # =============================================================================================== two writers
 def run_two(scs: tuple[dict, dict], root: str, prefix: list[int], init: dict[str, bytes], fault_at: int | None = None):
     """Run two writers in threads under the schedule `prefix` (then: lowest unfinished writer first); `fault_at` = k
@@ -978,7 +1277,8 @@ def run_two(scs: tuple[dict, dict], root: str, prefix: list[int], init: dict[str
             sim.wids[threading.get_ident()] = w
             sc = scs[w]
             try:
-                with AWSpy(os.path.join(root, sc['dest']), is_bytes=True) as f:
+                with AWSpy(os.path.join(root, sc['dest']), is_bytes=not sc.get('text'),
+                           **({'encoding': 'utf8'} if sc.get('text') else {})) as f:
                     body_plain(sc)(f)
             except BodyError:
                 outcomes[w] = 'body'
@@ -1014,18 +1314,25 @@ class Pair:
     def __init__(self, tag: str, sa: dict, sb: dict, init: dict[str, bytes]) -> None:
         self.tag, self.sa, self.sb, self.init = tag, sa, sb, init
         self.nm = NameMap({'init': init, 'dest': sa['dest']}, dests=[sa['dest'], sb['dest']])
-        # token numbering: writer w's j-th chunk is token 10*(w+1)+j
+        # token numbering: writer w's j-th chunk is token 10*(w+1)+j.  A text writer (TextIOWrapper keeps the encoded
+        # chunks until close) issues ONE raw write, during the close on the success path: empty body, one tail token
         toks = [[10 * (w + 1) + j + 1 for j in range(len(s['chunks']) if s.get('raise_after') is None else s['raise_after'])]
                 for w, s in enumerate((sa, sb))]
         self.wmap: dict[int, tuple[int, bytes]] = {}
+        tails: list[list[int]] = [[], []]
         for w, s in enumerate((sa, sb)):
+            if s.get('text'):
+                assert s.get('raise_after') is None
+                toks[w], tails[w] = [], [10 * (w + 1) + 1]
+                self.wmap[10 * (w + 1) + 1] = (0, _data(s))
+                continue
             off = 0
             for j, ch in enumerate(s['chunks']):
                 self.wmap[10 * (w + 1) + j + 1] = (off, ch)
                 off += len(ch)
-        self.scen = [coq_scen(self.nm.files.index(os.path.basename(s['dest'])), toks[w], [], s.get('raise_after'))
+        self.scen = [coq_scen(self.nm.files.index(os.path.basename(s['dest'])), toks[w], tails[w], s.get('raise_after'))
                      for w, s in enumerate((sa, sb))]
-        self.new = [b''.join(s['chunks']) if s.get('raise_after') is None else init.get(s['dest']) for s in (sa, sb)]
+        self.new = [_data(s) if s.get('raise_after') is None else init.get(s['dest']) for s in (sa, sb)]
         self.same_dest = sa['dest'] == sb['dest']
         self.max_tmp = max([NameMap.tmp_index(b) or 0 for b in init] + [0]) + 3
 
@@ -1043,7 +1350,7 @@ def two_check(ck: Ck, P: Pair, r: dict, fault_at: int | None, do_model: bool, ca
     if P.same_dest:
         # same destination: the last successful rename decides; the content must be complete (old / all of A / all of B)
         last = [o['w'] for o in r['ops'] if o['op'] == 'replace' and o['res'] == 'ok']
-        exp = b''.join((sa, sb)[last[-1]]['chunks']) if last else init.get(sa['dest'])
+        exp = _data((sa, sb)[last[-1]]) if last else init.get(sa['dest'])
         if lst.get(sa['dest']) != exp:
             ck.violation('two-writers:same-destination-wrong-content' + sfx,
                          f'{sa["dest"]} holds {lst.get(sa["dest"])!r:.40}, expected {exp!r:.40} (renames by {last})', rp)
@@ -1119,9 +1426,12 @@ def two_writer_campaign(ck: Ck, do_model: bool) -> None:
         # (pair, limit of the exhaustive DFS over schedules; 0 = only boundary pairs)
         (Pair('plain', A1, dict(dest='b.bin', chunks=[b'B1']), {'a.bin': b'OLDA', 'b.bin': b'OLDB', 'keep.txt': b'k'}), 5000),
         (Pair('stale+raise', A1, dict(dest='b.bin', chunks=[b'B1', b'B2'], raise_after=1),
-              {'a.bin': b'OLDA', 'tmp_1': b'STALE1', 'keep.txt': b'k'}), 5000 if big else 40),
+              {'a.bin': b'OLDA', 'tmp_1': b'STALE1', 'keep.txt': b'k'}), 5000 if big else 0),
         (Pair('two-chunks', dict(dest='a.bin', chunks=[b'A1', b'A2']), dict(dest='b.bin', chunks=[b'B1', b'B2']),
               {'a.bin': b'OLDA', 'b.bin': b'OLDB', 'tmp_2': b'STALE2'}), 6000 if big else 0),
+        # a bytes writer next to a text writer (the two open calls of make_tempfile are different code paths)
+        (Pair('bytes+text', dict(dest='a.bin', chunks=[b'A1', b'A2']), dict(dest='b.txt', chunks=['b1\n', 'b2\n'], text=True),
+              {'a.bin': b'OLDA', 'b.txt': b'OLDB', 'keep.txt': b'k'}), 3000 if big else 0),
         (Pair('fresh+stale-gap', dict(dest='a.bin', chunks=[b'A1', b'A2', b'A3']), dict(dest='b.bin', chunks=[]),
               {'tmp_1': b'S1', 'tmp_3': b'S3', 'keep.txt': b'k'}), 0),
         (Pair('same-destination', dict(dest='a.bin', chunks=[b'A1', b'A2']), dict(dest='a.bin', chunks=[b'B1']),
@@ -1162,7 +1472,10 @@ def two_writer_campaign(ck: Ck, do_model: bool) -> None:
             for k1 in range(n1 + 1):
                 for k2 in range(n2 + 1):
                     # quick tier: the mirrored order only for every other pair (the DFS / the theorem cover all)
-                    for prefix in ([[0] * k1 + [1] * k2, [1] * k2 + [0] * k1] if big or (k1 + k2) % 2
+                    # (round 3: the reuse histories took over part of the quick budget; 'fresh+stale-gap' and 'both-raise'
+                    # run the mirrored order only in the thorough tier)
+                    for prefix in ([[0] * k1 + [1] * k2, [1] * k2 + [0] * k1]
+                                   if big or ((k1 + k2) % 2 and tag not in ('fresh+stale-gap', 'both-raise'))
                                    else [[0] * k1 + [1] * k2]):
                         r = run_two((P.sa, P.sb), work, prefix + [1, 0] * 3, P.init)
                         if tuple(r['executed']) in seen_sched:
@@ -1194,7 +1507,11 @@ def two_writer_campaign(ck: Ck, do_model: bool) -> None:
 
 
 def _hexsc(s: dict) -> dict:
-    return {**s, 'chunks': [c.hex() for c in s['chunks']]}
+    return {**s, 'chunks': [c.hex() if isinstance(c, bytes) else c for c in s['chunks']]}
+
+
+def _data(s: dict) -> bytes:
+    return ''.join(s['chunks']).encode('utf8') if s.get('text') else b''.join(s['chunks'])
 
 
 def eval_cases2(ck: Ck, cases: list[dict]) -> None:
@@ -1644,9 +1961,13 @@ def run(ck: Ck) -> None:
             'exit_every_failure_path_unlinks_temp': f'cleans ({ok2}) false && cleans ({fl2}) false',
             'exit_never_swallows_an_exception': f'propagates ({ok2}) false && propagates ({fl2}) true',
             'exit_success_returns_normally': f'ok_path_returns ({ok2})',
-            'exit_without_enter_does_nothing':
-                'xtree_eqb (exit_tree_unentered aw_exit_prog false) (XDone false) && '
-                'xtree_eqb (exit_tree_unentered aw_exit_prog true) (XDone true)',
+            'exit_without_enter_does_nothing': 'unentered_exit_is_inert aw_obj',
+            # one object, several `with` blocks (c12_reuse_* speak about an object with reuse_indep = true): whatever
+            # the earlier uses left in the instance attributes, the next use runs the protocol of a fresh object
+            'reuse_exit_protocol_independent_of_earlier_uses': 'reuse_indep aw_obj',
+            'reuse_exit_always_clears_the_temp_handle': 'exit_always_leaves aw_obj 0 VNone',
+            'reuse_fresh_object_is_unentered': 'init_unentered aw_obj',
+            'reuse_enter_binds_handle_and_temp_name': 'enter_binds aw_obj',
             'temp_is_sibling_of_destination': 'aw_tmp_sibling',
             # the temp-name loop (c12_open_loop_least_free / c12_temp_index_bounded speak about this loop)
             'temp_loop_starts_at_1_and_is_unbounded': 'Nat.eqb aw_loop_start 1 && aw_loop_unbounded',
@@ -1688,6 +2009,9 @@ def _campaigns(ck: Ck, built: bool) -> None:
     single_campaign(ck, scs, bool(built))
     stage['single'] = round(time.time() - t1, 1)
     t1 = time.time()
+    history_campaign(ck, bool(built))
+    stage['history'] = round(time.time() - t1, 1)
+    t1 = time.time()
     try:
         bscs = bsp_scenarios(ck)
     except Exception as e:     # the BSP sample could not be prepared: say so, do not hide it
@@ -1698,7 +2022,8 @@ def _campaigns(ck: Ck, built: bool) -> None:
     t1 = time.time()
     two_writer_campaign(ck, bool(built))
     stage['two'] = round(time.time() - t1, 1)
-    keys = {v['key'].removeprefix('bsp-save:') for v in ck.violations}
+    reuse_keys = [v['key'] for v in ck.violations if v['key'].startswith('reuse:')]
+    keys = {v['key'].removeprefix('bsp-save:').removeprefix('reuse:') for v in ck.violations}
     # which failed obligations a concrete violation (with a replay) explains
     temp_left = any(k.startswith(('temp-left-after-', 'two-writers:temp-left', 'unexpected-files')) for k in keys)
     dest_bad = any('mixture' in k or k.startswith(('dest-changed', 'new-content', 'old-content', 'wrong-content',
@@ -1725,6 +2050,7 @@ def _campaigns(ck: Ck, built: bool) -> None:
         (any(k.startswith(('temp-name-loop', 'unexpected-outcome', 'two-writers:', 'foreign-file')) for k in keys),
          ['instance:temp_loop_']),
         (bool(ck.extra.get('bsp_violations')), ['instance:bsp_', 'translate:']),
+        (bool(reuse_keys), ['instance:reuse_', 'instance:exit_without_enter', 'translate:', 'correspondence:']),
     ]
     for cond, names in table:
         if cond:
@@ -1769,10 +2095,25 @@ def replay(data: dict) -> int:
                 print('operations:', [(o['op'], o['name'], o['res']) for o in res['ops']])
                 print('outcome:', res['outcome'])
             print('after :', {k: v[:40] for k, v in lst.items()})
+        elif r['mode'] in ('history', 'history-crash'):
+            hs = dict(r['history'])
+            hs['init'] = {n: bytes.fromhex(v) for n, v in hs['init'].items()}
+            hs['uses'] = [{**u, 'chunks': [c if hs.get('text') else bytes.fromhex(c) for c in u['chunks']]} for u in hs['uses']]
+            print('before:', {k: v[:40] for k, v in hs['init'].items()})
+            if r['mode'] == 'history-crash':
+                rc, lst = run_history_crash(hs, os.path.join(root, 'd'), r['k'])
+                print(f'history {hs["word"]} killed after {r["k"]} operations (child exit {rc})')
+                print('after :', {k: v[:40] for k, v in lst.items()})
+            else:
+                k = r['k']
+                res = run_history(hs, os.path.join(root, 'd'), fault_at=frozenset(k) if isinstance(k, list) else k)
+                for u, letter in enumerate(hs['word']):
+                    print(f'use {u + 1} ({letter}):', [(o['op'], o['name'], o['res']) for o in res['ops'] if o['u'] == u])
+                    print('   outcome:', res['outcomes'][u], ' directory:', {k: v[:40] for k, v in res['listings'][u + 1].items()})
         elif r['mode'] == 'two':
             sa = dict(r['a']); sb = dict(r['b'])
             for s in (sa, sb):
-                s['chunks'] = [bytes.fromhex(c) for c in s['chunks']]
+                s['chunks'] = [c if s.get('text') else bytes.fromhex(c) for c in s['chunks']]
             init = {n: bytes.fromhex(v) for n, v in r['scenario']['init'].items()}
             res = run_two((sa, sb), os.path.join(root, 'd'), r['schedule'], init, fault_at=r.get('fault_at'))
             print('operations:', [(o['w'], o['op'], o['name'], o['res']) for o in res['ops']])
